@@ -644,7 +644,7 @@ def run(ctx):
 
     # ---- generate + oracle -----------------------------------------------------------------------
     quick = ctx.tier == "quick"
-    n_base = int(os.environ.get("VERIF_C09_NBASE", 0)) or (900 if quick else 9000)
+    n_base = int(os.environ.get("VERIF_C09_NBASE", 0)) or (750 if quick else 9000)
     cap = 350 if quick else 500
     import time
     t0 = time.time()
